@@ -324,8 +324,8 @@ def ob_e(ob):
     from seqm.basics import Energy
 
     ob.encodes(Energy._crossing_match_molecular_orbitals)
-    ob.bound("2 occupied + 3 virtual orbitals, all 2! x 3! reorderings between consecutive steps (with a sign flip), batch of 2 molecules with different reorderings; the orbital energies symbolic reals; orbitals a concrete orthogonal matrix")
-    nocc, nvir = 2, 3
+    ob.bound("2 occupied + 3 virtual orbitals (thorough: 3 + 3), all reorderings between consecutive steps (with a sign flip), batch of 2 molecules with different reorderings; the orbital energies symbolic reals; orbitals a concrete orthogonal matrix")
+    nocc, nvir = (2, 3) if ob.tier != "thorough" else (3, 3)
     n = nocc + nvir
     g = torch.Generator().manual_seed(5)
     Q, _ = torch.linalg.qr(torch.rand(n, n, generator=g, dtype=torch.float64))
